@@ -4,6 +4,7 @@
 // the Lean model: reload into a fresh object, compare every observable, re-save, compare bytes.
 //
 // usage: c11_ser <seed> <count-per-type> [types...]
+//        c11_ser ld          (stdin: ld <type> <ctx…> <hex>; see c11_ser_more.h)
 #include "c11_big.h"
 #include "c11_alloc.h"
 
@@ -101,12 +102,14 @@ void gen_dist(splitmix &r, unsigned n)
 }  // namespace
 
 #include "c11_ser_big.h"
+#include "c11_ser_more.h"
 
 int main(int argc, char *argv[])
 {
   vita::log::reporting_level = vita::log::lOFF;
   (void)c11::M();                                      // the symbol sets are built first, in a fixed
   (void)c11::L();                                      // order: same opcodes in every harness process
+  if (argc > 1 && std::string(argv[1]) == "ld") return ld_loop();
   std::cout << "symtab " << c11::M().symtab() << std::endl;
   const std::uint64_t seed(argc > 1 ? std::stoull(argv[1]) : 1);
   const unsigned n(argc > 2 ? unsigned(std::stoul(argv[2])) : 100);
@@ -126,5 +129,6 @@ int main(int argc, char *argv[])
   { auto r(rs(6)); if (want("matu")) gen_mat<unsigned>(r, n, "matu"); }
   { auto r(rs(7)); if (want("dist")) gen_dist(r, n); }
   gen_big(seed, n, want);
+  gen_more(seed, n, want);
   return 0;
 }
